@@ -41,8 +41,10 @@ func (inst *Instance) ListWallets() ([]WalletListing, error) {
 func (inst *Instance) RemoveWallet(id, pass string, solo bool) error {
 	var err error
 	if !inst.RunCall("RemoveWallet", solo, func() { err = inst.WM.RemoveWallet(id, pass) }) {
+		inst.W.Logf("remove-wallet %s: call in flight", short(id))
 		return inst.unfinished("RemoveWallet")
 	}
+	inst.W.Logf("remove-wallet %s: err=%v", short(id), err)
 	if err == nil {
 		if ws := inst.Wallets[id]; ws != nil {
 			ws.Removing = true
@@ -71,8 +73,10 @@ func (inst *Instance) ImportMnemonicIdx(src *WalletState, extHint, intHint uint3
 	params := &keystore.WalletParams{Mnemonic: src.Mnemonic, PrivatePassphrase: []byte(src.Pass), Remarks: "imp",
 		ExternalIndex: extHint, InternalIndex: intHint, AddressGapLimit: inst.Cfg.Wallet.Settings.AddressGapLimit}
 	if !inst.RunCall("ImportMnemonic", solo, func() { sum, err = inst.WM.ImportWalletWithMnemonic(params) }) {
+		inst.W.Logf("import-mnemonic (of %s): call in flight", short(src.ID))
 		return nil, inst.unfinished("ImportWalletWithMnemonic")
 	}
+	inst.W.Logf("import-mnemonic (of %s): err=%v", short(src.ID), err)
 	if err != nil {
 		return nil, err
 	}
